@@ -27,6 +27,7 @@ type Report struct {
 	vacuous    []*Obligation
 	known      []*Obligation
 	errors     []*Obligation
+	undecided  []*Obligation // failed without a counterexample in a function whose loop specs are stale
 	verif      string
 	eng        *Engine
 }
@@ -98,7 +99,13 @@ func buildReport(eng *Engine, ps *PropSpec, vcs []*VC, obls []*Obligation, funcs
 		case "error":
 			r.errors = append(r.errors, o)
 		default:
-			r.failed = append(r.failed, o)
+			if o.vc != nil && len(o.vc.stale) > 0 && res.Status != "sat" {
+				// the function's loop invariants no longer evaluate (the loop was rewritten); without a
+				// counterexample from the bounded fallback nothing can be concluded
+				r.undecided = append(r.undecided, o)
+			} else {
+				r.failed = append(r.failed, o)
+			}
 		}
 		if len(samples) < 12 && (len(samples) < 4 || o.Kind != "ovf") {
 			samples = append(samples, sm)
@@ -174,7 +181,9 @@ func buildReport(eng *Engine, ps *PropSpec, vcs []*VC, obls []*Obligation, funcs
 	sort.Strings(inl)
 	cov["inlined_callees"] = inl
 	cov["dropped"] = eng.dropped
-	cov["bounded"] = []string{}
+	bounded := []string{}
+	bounded = append(bounded, eng.staleLoops...)
+	cov["bounded"] = bounded
 	var kfs []string
 	for _, o := range r.known {
 		kfs = append(kfs, fmt.Sprintf("%s: %s", o.Name, o.KF.What))
@@ -235,6 +244,12 @@ func (r *Report) finish() int {
 	if nObl == 0 || nObl < r.prop.MinObls || len(cov["functions_under_contract"].([]string)) < r.prop.MinFuncs {
 		fmt.Fprintf(os.Stderr, "govc: cannot decide: only %d obligations over %d functions generated (expected at least %d / %d): contracts missing?\n",
 			nObl, len(cov["functions_under_contract"].([]string)), r.prop.MinObls, r.prop.MinFuncs)
+		return 2
+	}
+	if len(r.failed) == 0 && len(r.undecided) > 0 {
+		for _, o := range r.undecided {
+			fmt.Fprintf(os.Stderr, "govc: cannot decide: %s [%s]: loop invariants of this function no longer evaluate (%s) and the bounded fallback gave no counterexample\n", o.Name, o.Result.Status, strings.Join(o.vc.stale, "; "))
+		}
 		return 2
 	}
 	if len(r.failed) == 0 {
